@@ -153,6 +153,9 @@ def _universe(maxnum: int):
 
 def exh_shard(rec, k, nshards, maxspecs, maxsize, maxnum):
     u = _universe(maxnum)
+    if maxspecs <= 2:
+        # zero-padded spellings of the same numbers (single-spec level only, to keep the product small)
+        u = u + [f"0{a}-00{b}" for a in range(maxnum + 1) for b in range(maxnum + 1)] + [f"-00{s}" for s in range(maxnum + 1)] + [f"00{a}-" for a in range(maxnum + 1)]
     g = core.guarded(oracle)
     i = 0
     for nspec in range(1, maxspecs + 1):
@@ -205,6 +208,14 @@ def rand_case(draw):
             specs.append(f"{draw(pool)}-")
         else:
             specs.append(f"-{draw(st.one_of(st.integers(0, 5), pool))}")
+    if draw(st.integers(0, 3)) == 0:
+        # numbers may be written with leading zeros (1*DIGIT)
+        def pad(m):
+            return "0" * draw(st.integers(1, 4)) + m.group(0) if draw(st.booleans()) else m.group(0)
+
+        import re as _re
+
+        specs = [_re.sub(r"[0-9]+", pad, sp) for sp in specs]
     sep = draw(st.sampled_from([",", ", ", " ,", " , ", ",\t"]))
     return {"h": "bytes=" + sep.join(specs), "n": n}
 
